@@ -5,20 +5,22 @@
 EXTENDS PublicInput, TLC, Json
 \* model layout: 4 trace rows per step, builtin 1: 3 cells / row ratio 8, builtin 2: 1 cell / row ratio 4
 L == [cpuRows |-> 4, nSegments |-> 5, maxLogSteps |-> 6, maxRC |-> 9,
-      builtins |-> <<[seg |-> 4, cells |-> 3, rowRatio |-> 8], [seg |-> 5, cells |-> 1, rowRatio |-> 4]>>]
-Base == [logSteps |-> 3, logTrace |-> 5, nSegments |-> 5, layoutOK |-> TRUE, rcMin |-> 2, rcMax |-> 7, usage |-> <<3, 2>>]
+      builtins |-> <<[seg |-> 4, cells |-> 3, rowRatio |-> 8], [seg |-> 5, cells |-> 1, rowRatio |-> 4],
+                     [seg |-> 6, cells |-> 2, rowRatio |-> 4, enabled |-> FALSE]>>]      \* builtin 3: switched off, with a row ratio left set
+Base == [logSteps |-> 3, logTrace |-> 5, nSegments |-> 5, layoutOK |-> TRUE, rcMin |-> 2, rcMax |-> 7, usage |-> <<3, 2, 0>>]
 Copies(n, i) == (2^n.logTrace) \div L.builtins[i].rowRatio
 Simple == {"none", "logSteps+1", "logTrace+1", "logSteps=max-1,consistent", "logSteps=max,consistent", "segments-1", "segments+1", "layoutCode+1",
            "rc:min>max", "rc:max=limit", "rc:max=limit+1", "rc:min=-1", "tinyTrace,usage=0", "tinyTrace,usage=1inst"}
 Devs == {<<"simple", 0, x>> : x \in Simple}
         \cup {<<"usage", i, u>> : i \in 1..2, u \in {"0", "1inst", "1inst+1cell", "copies", "copies+1", "-1cell", "-1inst"}}
+        \cup {<<"usage", 3, u>> : u \in {"0", "1inst"}}
 Apply(dd) ==
   IF dd[1] = "simple" THEN LET d == dd[3] IN
   CASE d = "none" -> Base
     [] d = "logSteps+1" -> [Base EXCEPT !.logSteps = 4]
     [] d = "logTrace+1" -> [Base EXCEPT !.logTrace = 6]
-    [] d = "logSteps=max-1,consistent" -> [Base EXCEPT !.logSteps = 5, !.logTrace = 7, !.usage = <<0, 0>>]
-    [] d = "logSteps=max,consistent" -> [Base EXCEPT !.logSteps = 6, !.logTrace = 8, !.usage = <<0, 0>>]
+    [] d = "logSteps=max-1,consistent" -> [Base EXCEPT !.logSteps = 5, !.logTrace = 7, !.usage = <<0, 0, 0>>]
+    [] d = "logSteps=max,consistent" -> [Base EXCEPT !.logSteps = 6, !.logTrace = 8, !.usage = <<0, 0, 0>>]
     [] d = "segments-1" -> [Base EXCEPT !.nSegments = 4]
     [] d = "segments+1" -> [Base EXCEPT !.nSegments = 6]
     [] d = "layoutCode+1" -> [Base EXCEPT !.layoutOK = FALSE]
@@ -26,8 +28,8 @@ Apply(dd) ==
     [] d = "rc:max=limit" -> [Base EXCEPT !.rcMax = 9]
     [] d = "rc:max=limit+1" -> [Base EXCEPT !.rcMax = 10]
     [] d = "rc:min=-1" -> [Base EXCEPT !.rcMin = 0 - 1 + 0]
-    [] d = "tinyTrace,usage=0" -> [Base EXCEPT !.logSteps = 0, !.logTrace = 2, !.usage = <<0, 0>>]
-    [] d = "tinyTrace,usage=1inst" -> [Base EXCEPT !.logSteps = 0, !.logTrace = 2, !.usage = <<3, 0>>]
+    [] d = "tinyTrace,usage=0" -> [Base EXCEPT !.logSteps = 0, !.logTrace = 2, !.usage = <<0, 0, 0>>]
+    [] d = "tinyTrace,usage=1inst" -> [Base EXCEPT !.logSteps = 0, !.logTrace = 2, !.usage = <<3, 0, 0>>]
   ELSE LET d == dd IN
             LET i == d[2]  c == L.builtins[i].cells  u == d[3]
                     v == CASE u = "0" -> 0 [] u = "1inst" -> c [] u = "1inst+1cell" -> c + 1 [] u = "copies" -> Copies(Base, i) * c
